@@ -155,7 +155,7 @@ Proof.
   destruct acc as [[[st tm] ret] dp]. unfold scroll_one, acc_root. cbn [fst].
   destruct ((Z.abs d >=? lines rc) || (Z.abs r >=? cols rc)).
   { cbn [fst]. apply same_ids_expose. apply same_ids_refl. }
-  destruct (shift_damage (r_damage st) rc d r) as [dmg|]; [|cbn [fst]; apply same_ids_forest; reflexivity].
+  destruct (shift_damage (r_fuel st) (r_damage st) rc d r) as [dmg|]; [|cbn [fst]; apply same_ids_forest; reflexivity].
   destruct (term_scroll (if dp then tm else term_set_cvis tm false) rc d r) as [tm2 acc'].
   assert (H1 : same_ids st (set_damage st dmg)) by (apply same_ids_forest; reflexivity).
   destruct acc'; cbn [fst].
@@ -187,10 +187,10 @@ Proof.
             | Some o => r_intersect (selfrect (t_info w)) o
             | None => r_intersect (selfrect (t_info w)) (selfrect (t_info w))
             end) as [rc|]; [|apply same_ids_refl].
-  destruct (rs_add rsfuel [] rc) as [v0|]; [|apply same_ids_forest; reflexivity].
-  destruct (if mask then rs_sub_vis (Some v0) (t_kids w) else Some v0) as [v1|];
+  destruct (rs_add (r_fuel st) [] rc) as [v0|]; [|apply same_ids_forest; reflexivity].
+  destruct (if mask then rs_sub_vis (r_fuel st) (Some v0) (t_kids w) else Some v0) as [v1|];
     [|apply same_ids_forest; reflexivity].
-  destruct (scroll_region cfg (w :: rest) v1 0 0) as [| |V a b];
+  destruct (scroll_region cfg (r_fuel st) (w :: rest) v1 0 0) as [| |V a b];
     [apply same_ids_forest; reflexivity|apply same_ids_refl|].
   pose proof (scroll_fold_ids id a b d r V (st, tm, true, false)) as H. unfold acc_root in H. cbn [fst] in H.
   destruct (fold_left (scroll_one id a b d r) V (st, tm, true, false)) as [[[st1 tm1] ret] dp].
